@@ -178,16 +178,27 @@ def odec? : Term → Option ODec
       | _ => none)).map .ents
   | _ => none
 
-def probe? : Term → Option Nlri
-  | .list [.atom "panic", d] => (odec? d).map (fun x => .opq .panic x)
-  | .list [.atom "err", d] => (odec? d).map (fun x => .opq .err x)
+/-- Has the NLRI `mk_nlri(fam, kind, seed)` of harness/pt/src/c04_fam.rs a wire form?  Decided from the input:
+    VPN (SAFI 128) and labeled-unicast (SAFI 4) NLRI carry `kind` labels and a prefix of `seed % (max+1)` bits, and
+    their length octet counts bits (RFC 8277 §2.2, RFC 4364 §4.3.4): labels·24 (+64 for the RD) + prefix ≤ 255.
+    A labeled-unicast withdrawal carries one compatibility field instead of the stack (RFC 8277 §2.4).
+    Every other family's constructors only build encodable values. -/
+def hasWireForm (f : Fam) (reach : Bool) (kind seed : Nat) : Bool :=
+  let maxMask := if f.afi = 1 then 32 else 128
+  if (f.afi = 1 ∨ f.afi = 2) ∧ f.safi = 128 then 24 * kind + 64 + seed % (maxMask + 1) ≤ 255
+  else if (f.afi = 1 ∨ f.afi = 2) ∧ f.safi = 4 then (if reach then 24 * kind + seed % (maxMask + 1) ≤ 255 else true)
+  else true
+
+def probe? (w : Bool) : Term → Option Nlri
+  | .list [.atom "panic", d] => (odec? d).map (fun x => .opq .panic x w)
+  | .list [.atom "err", d] => (odec? d).map (fun x => .opq .err x w)
   | .list [e, d] => do
       let b ← asBytes? e
       let x ← odec? d
-      pure (.opq (.ok b) x)
+      pure (.opq (.ok b) x w)
   | _ => none
 
-def entry? (p : Profile) : Term → Option (List Entry)
+def entry? (p : Profile) (f : Fam) (reach : Bool) : Term → Option (List Entry)
   | .list [.atom "v4", a, m, pid] => do
       let a ← natLe? a U32
       let m ← natLe? m 32
@@ -217,23 +228,24 @@ def entry? (p : Profile) : Term → Option (List Entry)
       pure ((List.range cnt).map (fun i =>
         ⟨.ip true (be128 ((beNat a + i * step) % 2 ^ 128)) m, (pid + i * ps) % 4294967296⟩))
   | .list [.atom "o", k, s, pid, pr] => do
-      let _ ← natLe? k 255
-      let _ ← natLe? s 18446744073709551615
+      let k ← natLe? k 255
+      let s ← natLe? s 18446744073709551615
       let pid ← natLe? pid U32
-      let n ← probe? pr
+      let n ← probe? (hasWireForm f reach k s) pr
       pure [⟨n, pid⟩]
   | .list [.atom "o", k, s, pid, pd, pr] => do
-      let _ ← natLe? k 255
-      let _ ← natLe? s 18446744073709551615
+      let k ← natLe? k 255
+      let s ← natLe? s 18446744073709551615
       let pid ← natLe? pid U32
-      let n ← probe? (match p with | .debug => pd | .release => pr)
+      let n ← probe? (hasWireForm f reach k s) (match p with | .debug => pd | .release => pr)
       -- both probes must be well-formed
-      let _ ← probe? pd
-      let _ ← probe? pr
+      let _ ← probe? true pd
+      let _ ← probe? true pr
       pure [⟨n, pid⟩]
   | _ => none
 
-def entries? (p : Profile) (l : List Term) : Option (List Entry) := (l.mapM (entry? p)).map List.flatten
+def entries? (p : Profile) (f : Fam) (reach : Bool) (l : List Term) : Option (List Entry) :=
+  (l.mapM (entry? p f reach)).map List.flatten
 
 def msg? (p : Profile) : Term → Option Msg
   | .atom "keepalive" => some .keepalive
@@ -248,11 +260,11 @@ def msg? (p : Profile) : Term → Option Msg
       let f ← fam? a s
       let nh ← nh? nh
       let attrs ← attrs.mapM attr?
-      let es ← entries? p es
+      let es ← entries? p f true es
       pure (.reach f nh attrs es)
   | .list [.atom "unreach", a, s, .list (.atom "entries" :: es)] => do
       let f ← fam? a s
-      let es ← entries? p es
+      let es ← entries? p f false es
       pure (.unreach f es)
   | .list [.atom "eor", a, s] => (fam? a s).map .eor
   | .list [.atom "notif", c, s, d] => do
